@@ -166,6 +166,9 @@ func keyOf(t typeSpec, rules []string, r jsonapi.Resource, skipUnordered bool) s
 				v = jsonapi.GetZeroValue(f.code, f.nullable)
 			}
 		}
+		if b, ok := v.([]byte); ok && b == nil {
+			v = []byte{} // Less compares byte strings by content: nil and empty tie
+		}
 		parts = append(parts, oValue(v))
 	}
 	return strings.Join(parts, " ")
@@ -189,6 +192,9 @@ func pageObs(s c09Scenario, page jsonapi.Collection, withIDs bool) string {
 				if f := s.t.field(n); f != nil && !f.rel {
 					v = jsonapi.GetZeroValue(f.code, f.nullable)
 				}
+			}
+			if b, ok := v.([]byte); ok && b == nil {
+				v = []byte{}
 			}
 			parts = append(parts, oValue(v))
 		}
@@ -365,6 +371,10 @@ func c09RandScenario(r *rng) c09Scenario {
 	t := allKindsSpec("alltypes", "other")
 	if r.chance(1, 3) {
 		t = randTypeSpec(r, "t", 5, []string{"other"})
+		if r.bool() && t.field("x-y") == nil {
+			// a hyphen inside an attribute name
+			t.fields = append(t.fields, fieldSpec{name: "x-y", code: pick(r, []int{1, 2, 12, 13}), nullable: r.chance(1, 3)})
+		}
 	}
 	s := c09Scenario{t: t, colKind: pick(r, []string{"soft-collection", "wrapper-collection", "resources-soft", "resources-wrapped"})}
 	n := pick(r, []int{0, 1, 2, 3, 5, 11, 12, 13, 20})
@@ -410,6 +420,18 @@ func c09RandScenario(r *rng) c09Scenario {
 		seen[id] = true
 		s.items[i][0].val = id
 	}
+	if r.chance(1, 3) && n > 1 {
+		// IDs that differ from another member's only by surrounding white space
+		for i := range s.items {
+			if r.chance(1, 3) {
+				id := pick(r, []string{" ", "", "\t"}) + s.items[r.intn(n)][0].val.(string) + pick(r, []string{" ", "", "\n"})
+				if !seen[id] {
+					seen[id] = true
+					s.items[i][0].val = id
+				}
+			}
+		}
+	}
 	if r.chance(1, 3) && n > 0 {
 		for i := range s.items {
 			if r.bool() {
@@ -418,6 +440,17 @@ func c09RandScenario(r *rng) c09Scenario {
 		}
 		if r.chance(1, 4) {
 			s.ids = append(s.ids, "absent")
+		}
+		if r.chance(1, 3) {
+			// padded variant of a member's ID; the list stays duplicate-free (the property is about ID subsets)
+			id := pick(r, []string{" ", "\n", ""}) + s.items[r.intn(n)][0].val.(string) + pick(r, []string{" ", "\t"})
+			dup := false
+			for _, x := range s.ids {
+				dup = dup || x == id
+			}
+			if !dup {
+				s.ids = append(s.ids, id)
+			}
 		}
 	}
 	if r.chance(1, 3) && len(t.fields) > 0 {
